@@ -23,6 +23,8 @@ type c10Spec struct {
 	RangeNs int64    `json:"range"`
 	Kind    string   `json:"kind"` // plain | vec | unwrap | binop
 	SelB    string   `json:"sel_b,omitempty"`
+	// Pipe is appended to every selector (labels derived from the line).
+	Pipe string `json:"pipe,omitempty"`
 	BinOp   string   `json:"bin_op,omitempty"` // + and or unless
 	VecOp   string   `json:"vec_op,omitempty"`
 	Without bool     `json:"without,omitempty"`
@@ -31,6 +33,10 @@ type c10Spec struct {
 
 func (s c10Spec) Query() string {
 	r := durText(s.RangeNs)
+	s.Sel += s.Pipe
+	if s.SelB != "" {
+		s.SelB += s.Pipe
+	}
 	grp := ""
 	if len(s.Labels) > 0 {
 		kw := "by"
@@ -62,9 +68,19 @@ func (propC10) Gen(r *Rng, run uint64, tier string) *Plan {
 	if r.Bool(0.2) {
 		spec.Msg = "token"
 	}
+	pipe := ""
+	if r.Bool(0.2) {
+		// Labels derived from the line: several records of one container then
+		// differ only in labels whose names and values are prefixes of one another.
+		spec.Msg = "kv"
+		pipe = []string{" | logfmt | drop msg", " | logfmt | drop msg", " | logfmt"}[r.Intn(3)]
+	}
 	p.World = GenWorld(r.Sub("world"), spec)
 	sel, _ := genSelection(r.Sub("sel"), &p.World)
-	qs := c10Spec{Sel: sel, RangeNs: rng, Kind: []string{"plain", "vec", "vec", "vec", "unwrap", "binop"}[r.Intn(6)]}
+	qs := c10Spec{Sel: sel, RangeNs: rng, Pipe: pipe, Kind: []string{"plain", "vec", "vec", "vec", "unwrap", "binop"}[r.Intn(6)]}
+	if qs.Kind == "unwrap" && pipe != "" {
+		qs.Kind = "plain"
+	}
 	if qs.Kind == "binop" {
 		qs.SelB, _ = genSelection(r.Sub("selB"), &p.World)
 		qs.BinOp = []string{"+", "and", "or", "unless"}[r.Intn(4)]
@@ -139,7 +155,7 @@ func c10Side(t *testing.T, p *Plan, spec c10Spec, sel string, steps []int64, st 
 	// Reference partition: the same world through the log path, which keys
 	// streams by a sorted, quoted rendering of the label set.
 	ref := *p
-	ref.Query = sel
+	ref.Query = sel + spec.Pipe
 	ref.Params = Params{Start: p.Params.Start - spec.RangeNs - sec, End: p.Params.End, StepNs: sec, Limit: -1}
 	if ref.Params.Start == ref.Params.End {
 		ref.Params.End++
@@ -425,6 +441,7 @@ func (propC10) Check(t *testing.T, p *Plan, st *Stats) *Violation {
 				lbls := append([]string(nil), spec.Labels...)
 				sort.Strings(lbls)
 				st.Probe("kind_" + spec.Kind + spec.BinOp)
+			st.ProbeIf(spec.Pipe != "", "labels_derived_from_line")
 			st.Signature(fmt.Sprintf("%s%s|%s|%v|%v|inst=%s|series=%d|ents=%d", spec.Kind, spec.BinOp, spec.VecOp, spec.Without, lbls, p.Tags["instant"], len(expSeries), nEnts))
 			}
 		}
@@ -451,6 +468,11 @@ func (propC10) ShrinkCandidates(p *Plan) []*Plan {
 	if spec.Sel != "{}" {
 		s := spec
 		s.Sel = "{}"
+		mk(s)
+	}
+	if spec.Pipe != "" {
+		s := spec
+		s.Pipe = ""
 		mk(s)
 	}
 	for i := range spec.Labels {
